@@ -82,6 +82,7 @@ class Machine:
             if n <= 0:
                 return None
             targets = []
+            ev = [e for e in ev if e[0] not in ("close", "mutate")]  # these are logged but are not fault positions
             for j, e in enumerate(ev):
                 k = e[0]
                 if k in ("open_w", "open_a", "open_x"):
@@ -98,6 +99,16 @@ class Machine:
             total = sum(e[2] for e in ev if e[0] == "write")
             if total <= 0:
                 return None
+            # the device fills up inside one of the files the operation writes, each file equally likely (by bytes a small
+            # file next to a large one would almost never be the one that is cut), sometimes exactly at its first byte
+            per_file, before = {}, 0
+            for e in ev:
+                if e[0] == "write" and e[2] > 0:
+                    per_file.setdefault(e[1], []).append((before, e[2]))
+                    before += e[2]
+            if per_file and s.chance(0.8):
+                start, n = s.choice(per_file[s.choice(sorted(per_file))])
+                return {"op": op_i, "kind": "enospc", "after_bytes": start + (0 if s.chance(0.3) else s.below(n))}
             return {"op": op_i, "kind": "enospc", "after_bytes": s.below(total)}
         if kind in ("eio_read", "short_read"):
             n = c.get("read", 0)
@@ -112,6 +123,18 @@ class Machine:
             if n <= 0:
                 return None
             return {"op": op_i, "kind": kind, "at": s.below(n), "len": s.choice([1, 2, 7])}
+        if kind == "write_fail":
+            # one of the written files, each equally likely, stops accepting data at one of its writes (often the first)
+            per_file, j = {}, 0
+            for e in ev:
+                if e[0] == "write":
+                    per_file.setdefault(e[1], []).append(j)
+                    j += 1
+            if not per_file:
+                return None
+            js = per_file[s.choice(sorted(per_file))]
+            return {"op": op_i, "kind": kind, "at": js[0] if s.chance(0.5) else s.choice(js),
+                    "errno": s.choice([_errno.EIO, _errno.EFBIG, _errno.EDQUOT, _errno.ENOSPC])}
         if kind == "open_fail":
             n = c.get("open", 0)
             if n <= 0:
